@@ -98,6 +98,7 @@ End Loops.
 
 Section Spec.
 Variable g : list (list nat * expr).
+Variable funs : list (list nat * expr).     (* argument expressions lifted into functions: (free variables, body) *)
 Variable ignored : option nat.
 Variable t : list nat.
 Variable rx : nat -> nat -> option nat.
@@ -198,7 +199,36 @@ Fixpoint peg (n : nat) (E : env) (e : expr) (p : nat) : sres :=
                       | Match v p1 => peg n ((x, v) :: E) body p1
                       | other => other end
     | Class cls ms => class_spec (peg n) cls p ms E p []
-    | OpTable _ _ _ _ | RefL _ | Call _ _ => Raise        (* specified separately *)
+    (* a name that holds a parser, used as a parser: the rule it names, the literal it is, or the argument
+       expression it stands for — evaluated in the environment of the call site that passed it (its captured
+       values), i.e. the argument substituted for the parameter *)
+    | RefL x =>
+        match lookup x E with
+        | Some (VRule r) => match nth_error g r with Some ([], b) => peg n [] b p | _ => Raise end
+        | Some (VLit sl sk) => peg n [] (Str sl sk) p
+        | Some (VClos fid given) =>
+            match nth_error funs fid with
+            | Some (ps, b) => if Nat.eqb (length ps) (length given) then peg n (combine ps given) b p else Raise
+            | None => Raise
+            end
+        | _ => Raise
+        end
+    (* T(args): the body of T with every parameter bound to the corresponding argument (positional, then by
+       keyword), in a scope of its own *)
+    | Call callee args =>
+        match call_target E callee with
+        | Some r =>
+            match nth_error g r with
+            | Some (ps, b) =>
+                match bind_args E ps args [] with
+                | Some en => peg n en b p
+                | None => Raise
+                end
+            | None => Raise
+            end
+        | None => Raise
+        end
+    | OpTable _ _ _ _ => Raise        (* specified separately (OpTable.v / Pratt.v) *)
     end
   end.
 End Spec.
